@@ -798,7 +798,10 @@ func (s *Stage) cleanWaiting() {
 		}
 		for _, waitFile := range s.fromWait(prevPath) {
 			s.logInfo("Removing wait loop:", waitFile.name, "<-", waitFile.prev)
-			f := s.fromCache(waitFile.path)
+			// (not fromCache(): the cache read lock is already held here, and
+			// taking it a second time deadlocks with a writer that has
+			// queued up in between, e.g. a file being put away)
+			f := s.cache[waitFile.path]
 			if f != nil && f.state == stateValidated {
 				if f.wait != nil {
 					f.wait.Stop()
